@@ -42,6 +42,12 @@ class Ctx:
     def has(self, feat):
         return feat in self.features
 
+    tier = 'quick'
+
+    def k(self, quick, thorough):
+        """tier dependent bound (loop unrolling, inline depth)"""
+        return thorough if Ctx.tier == 'thorough' else quick
+
     @property
     def cg(self):
         if self._cg is None:
@@ -78,6 +84,7 @@ def get_ctx(cfg, repo=None):
 
 def run_check(prop, tier):
     mod = importlib.import_module(prop.lower())
+    Ctx.tier = tier
     R = Report(prop, tier)
     cfgs = extract.QUICK if tier == 'quick' else extract.THOROUGH
     for cfg in cfgs:
